@@ -405,6 +405,9 @@ Program genC01(Rand& R, int tier)
 Program generate(const std::string& p, Rand& R, int tier)
 {
     if (p == "C01") return genC01(R, tier);
+    if (p == "C08") return genC08(R, tier);
+    if (p == "C09") return genC09(R, tier);
+    if (p == "C20") return genC20(R, tier);
     if (p == "C06") return genC06(R, tier);
     if (p == "C07") return genC07(R, tier);
     if (p == "C11") return genC11(R, tier);
@@ -420,6 +423,9 @@ Program generate(const std::string& p, Rand& R, int tier)
 
 bool nontrivialRule(const std::string& p, const Labels& L)
 {
+    if (p == "C08") return L.has("reach_2_iterations") && L.get("op.reach") >= 2;
+    if (p == "C09") return (L.has("op.image") && L.has("nonconstant_result")) || L.has("vm_nonconstant_vector");
+    if (p == "C20") return L.has("pregen_2events") && L.has("reach_2_iterations");
     if (p == "C01") return L.has("canon_equal_pairs") && L.has("node_death");
     if (p == "C06") return L.has("node_death") && L.has("handle_reuse") && L.has("drain_point");
     if (p == "C07") return L.has("handle_reuse") && (L.get("op.UNION") + L.get("op.INTERSECTION") + L.get("op.DIFFERENCE") + L.get("op.PLUS") + L.get("op.MINUS") + L.get("op.MULTIPLY") + L.get("op.MAXIMUM") + L.get("op.MINIMUM") + L.get("op.COPY") >= 5);
@@ -435,6 +441,9 @@ bool nontrivialRule(const std::string& p, const Labels& L)
 
 const char* ruleText(const std::string& p)
 {
+    if (p == "C08") return "random transition relations built as unions of 1-6 events (guards, self-loops, dead ends, nondeterminism, untouched variables as identity patterns) in a boolean relation forest of a random reduction rule; 1-4 initial states in a boolean / MT-int-distance / EV+-distance set forest; every offered algorithm (frontier BFS, BFS, saturation), forward and backward, several successive calls with new relations / initial sets in the same forests; results compared pointwise with an explicit BFS (reachable set and shortest distances), and results of different algorithms in one forest must be the identical edge; non-trivial = the closure needs >= 2 steps and >= 2 reachability calls ran; distinct = distinct program text";
+    if (p == "C09") return "post/pre-images of boolean / MT-int-distance / EV+-distance sets under event-built and arbitrary relations of every reduction rule, compared with the explicit neighbour definition (1 + min distance, unreachable where there is none); vector-matrix and matrix-vector products of random int/real vectors and matrices compared with the explicit sum of products; non-trivial = an image with a non-constant result or a product with a non-constant vector; distinct = distinct program text";
+    if (p == "C20") return "1-8 random events kept as a list, fed to partitioned saturation by events and by levels with every splitting option, compared pointwise with the explicit closure under the union of the events and (edge identity) with the monolithic reachability result in the same forest; non-trivial = >= 2 events and a closure of >= 2 steps; distinct = distinct program text";
     if (p == "C01") return "one function rebuilt along many routes in one forest (same minterms in shuffled order, split-and-recombine, algebraic detours such as double complement / (a+b)-b / x*1, copies through sibling and foreign forests and back) interleaved with garbage, releases and cache clears; after every step every pair of live edges of a forest must be == exactly when their value tables are equal; non-trivial = at least one pair of equal-table edges was compared and a node died earlier in the history; distinct = distinct program text";
     if (p == "C06") return "random histories of constructions, operations, edge copies/assignments/releases, temporaries (1..70000 copies of one edge), cache clears under optimistic/pessimistic/never policies; exact reference recount of every live node and re-evaluation of every held edge after every step; drain points (release all, clear caches) must leave only nodes reachable from library-held registered edges; non-trivial = a node died, a handle was reused and a drain point ran; distinct = distinct program text";
     if (p == "C07") return "random histories under a random compute-table configuration (4 styles x 3 stale policies x max sizes x compression) with releases, stale removal and cache clears; every operation result and every held edge checked against the model after every step, and every node's cache count compared with a recount of the table entries; non-trivial = a node handle was reused and at least 5 cached operations ran; distinct = distinct program text";
